@@ -5,7 +5,9 @@ lean/Mpir/Model/AllocSafeMpf7.lean has index-checked mirrors (every load and sto
 of mpf/set.c, set_ui.c, set_si.c, set_z.c, mul_ui.c (the carry-in scan over the dropped limbs, the unconditional store `rp[size] = cy_limb`)
 mul_2exp.c / div_2exp.c (whole-limb copy arm with `prec++`, the mpn_rshift path `rp + 1` / `rp[0] = cy_limb` / read-back of rp[abs_usize], the mpn_lshift path)
 and add.c for operands of equal sign (exponent swap, the two cuts to `prec` limbs, `ediff >= prec` early copy with its `rp != up` test, the three
-alignments into the TMP area of `prec` limbs, `rp[rsize] = cy`; different signs go to mpf_sub and are refused by the ops).  Theorems
+alignments into the TMP area of `prec` limbs, `rp[rsize] = cy`), and of mpf/neg.c and mpf/sub.c: zero operands and operands of different sign index-checked (mpf_neg, mpf_set, the equal-sign path of add.c), the
+equal-sign path of sub.c (also reached from mpf_add with different signs) at STORE level — exactly the |SIZ| result limbs of C13's Mpf.subMag at rp[0, |SIZ|), operand loads
+inside their |SIZ| limbs; its TMP traffic is not index-checked (theorem `mpf_sub_dest_safe_partial` says so).  Theorems
 `<fn>_dest_safe` (lean/MpirProofs/Props/C04_allocsafe7.lean).  Ops `as7_*` (harness/ops_allocsafe7.c) build every object by hand: destination
 block of EXACTLY PREC + 1 limbs between guard limbs, operands in blocks of exactly their length, all alias modes; SIZ, EXP and the WHOLE
 destination block are compared with the model's."""
@@ -13,18 +15,19 @@ from genlib import *
 
 LEAN_MODULES = ["MpirProofs.Props.C04_allocsafe7"]
 THEOREMS = ["Mpir.AllocSafe7." + t for t in (
-    "mpf_set_dest_safe", "mpf_set_ui_dest_safe", "mpf_set_si_dest_safe", "mpf_set_z_dest_safe", "mpf_mul_ui_dest_safe", "mpf_add_dest_safe", "mpf_add_dest_wf", "mpf_mul_2exp_dest_safe", "mpf_div_2exp_dest_safe")]
+    "mpf_set_dest_safe", "mpf_set_ui_dest_safe", "mpf_set_si_dest_safe", "mpf_set_z_dest_safe", "mpf_mul_ui_dest_safe", "mpf_add_dest_safe", "mpf_add_dest_wf", "mpf_mul_2exp_dest_safe", "mpf_div_2exp_dest_safe", "mpf_sub_dest_safe_partial")]
 TRUSTED = ["hand-written index-checked models lean/Mpir/Model/AllocSafeMpf7.lean (mpf/set.c, set_ui.c, set_si.c, set_z.c, mul_ui.c, add.c, mul_2exp.c, div_2exp.c; "
            "mpn_lshift / mpn_rshift at value level: the n + 1 limbs of up * 2^k as in Mpf.shiftUp; "
            "mpn_add / mpn_mul_1 + carry-in at value level as in the C13 model Mpir/Model/Mpf.lean; MPN_COPY_INCR with rp <= up = all loads, then all stores), "
            "tied by exact comparison of SIZ, EXP and the whole destination block (guard limbs around it) in every alias mode, and by source pins"]
-ASSUMPTIONS = ["mpn_rshift (rp + 1, up, n, c) stores exactly rp[1, n] and mpn_lshift (rp, up, n, c) exactly rp[0, n) (C03 kernels); with rp <= up the incrementing mpn_rshift and, in place, the decrementing mpn_lshift read every limb before overwriting it",
+ASSUMPTIONS = ["mpf/sub.c:65-410 stores through rp only by the MPN_COPYs of :122, :286, :297, :309, :402 (exactly the result limbs at rp[0, rsize)); its TMP area of PREC + 1 limbs is not index-checked",
+               "mpn_rshift (rp + 1, up, n, c) stores exactly rp[1, n] and mpn_lshift (rp, up, n, c) exactly rp[0, n) (C03 kernels); with rp <= up the incrementing mpn_rshift and, in place, the decrementing mpn_lshift read every limb before overwriting it",
                "mpn_add (rp, xp, xn, yp, yn) stores exactly xn limbs, mpn_mul_1 / mpn_add_1 exactly n limbs (C01/C03 kernels)",
                "the carry-in scan of mpf/mul_ui.c:132-154 is checked as a load of up[0, excess) (it loads a suffix of that range)"]
 RULE = ("allocsafe7: destination precision 1..6 limbs, operand lengths 0, 1, prec-1, prec, prec+1, prec+2, prec+5 (longer than the destination, and in "
         "the aliased calls longer than the object's own PREC + 1), all-ones operands (carry limb stored at rp[size] / rp[rsize]), low zero limbs, "
         "mpf_add: exponent difference 0, 1, usize-1, usize, usize+1, prec-1, prec, prec+1, large, either operand the larger exponent, a zero operand, "
-        "alias modes r==u, r==v, u==v, r==u==v; mul_2exp/div_2exp: counts 0, 1, 63, 64, 65, multiples of 64, operand longer than prec (rshift path) or not (lshift path, carry limb zero / non-zero), r==u; mul_ui: v = 0, 1, 2^64-1, 2^63, carries propagating out of the dropped limbs")
+        "alias modes r==u, r==v, u==v, r==u==v; mpf_sub / mpf_add with every sign combination: k equal high limbs then a differing one, one operand a prefix of the other, x+1 000.. / x fff.. and 1 000.. / 0 fff.. neighbours, one-ulp neighbours, u == v, low zero limbs, exponent differences around PREC + 1; mul_2exp/div_2exp: counts 0, 1, 63, 64, 65, multiples of 64, operand longer than prec (rshift path) or not (lshift path, carry limb zero / non-zero), r==u; mul_ui: v = 0, 1, 2^64-1, 2^63, carries propagating out of the dropped limbs")
 
 PINS = [("mpf/sub.c", None), ("mpf/neg.c", None), ("mpf/mul_2exp.c", None), ("mpf/div_2exp.c", None), ("mpf/set.c", None), ("mpf/set_ui.c", None), ("mpf/set_si.c", None), ("mpf/set_z.c", None), ("mpf/mul_ui.c", None), ("mpf/add.c", None)]
 
